@@ -192,3 +192,43 @@ package command
 //@   loop 0 row unknown: [call strings.ToLower(_) as (lf)] when !mapin(tcpPacketFlagOptions, lf) && ret0 == nil && ret1 == errTCPflag -> exit
 //@   loop 0 row known:   [call strings.ToLower(_) as (lf)] when mapin(tcpPacketFlagOptions, lf) && len(result) == len(pre(result)) + 1 && result[len(pre(result))] == lf
 //@                          && (forall k int :: 0 <= k && k < len(pre(result)) ==> result[k] == pre(result[k])) -> continue
+
+// ---------------------------------------------------------------------------------------------
+// C17: interface and source selection (decision tree of the statement)
+//
+// getScanRange: the interface is the one getInterface chose; the source address is --srcip if given, else the
+// interface address, and must have a 4-byte form (else errSrcIP: never an empty source); the source MAC is --srcmac
+// if given, else exactly the interface's hardware address (nil stays nil: that is what selects VPN framing)
+//@ func (*packetScanCmdOpts).getScanRange
+//@   props C17
+//@   observe getInterface, To4
+//@   entry row ifaceerr: [call getInterface(o, dstSubnet) as (ifc, sip, e)] when e != nil && ret0 == nil && ret1 == e -> exit
+//@   entry row noiface:  [call getInterface(o, dstSubnet) as (ifc, sip, e)] when e == nil && ifc == nil && ret0 == nil && ret1 == errSrcInterface -> exit
+//@   entry row nosrc:    [call getInterface(o, dstSubnet) as (ifc, sip, e) ; call To4(bind_s) as (s4)]
+//@                          when e == nil && ifc != nil && (o.srcIP != nil ==> s == o.srcIP) && (o.srcIP == nil ==> s == sip) && s4 == nil && ret0 == nil && ret1 == errSrcIP -> exit
+//@   entry row range:    [call getInterface(o, dstSubnet) as (ifc, sip, e) ; call To4(bind_s) as (s4)]
+//@                          when e == nil && ifc != nil && (o.srcIP != nil ==> s == o.srcIP) && (o.srcIP == nil ==> s == sip) && s4 != nil && ret1 == nil && ret0 != nil
+//@                            && ret0.Interface == ifc && ret0.DstSubnet == dstSubnet && ret0.SrcIP == s4 && len(ret0.SrcIP) == 4
+//@                            && (o.srcMAC != nil ==> ret0.SrcMAC == o.srcMAC) && (o.srcMAC == nil ==> ret0.SrcMAC == ifc.HardwareAddr) -> exit
+
+// getInterface: directly attached interface (with its address on that subnet) first; else --iface with its first
+// address - unconditionally, also when that lookup fails; else the default-route interface
+//@ func (*packetScanCmdOpts).getInterface
+//@   props C17
+//@   observe getLocalSubnetInterface, ip.GetInterfaceIP
+//@   opaque ip.GetDefaultInterface
+//@   entry row localerr:  [call getLocalSubnetInterface(o, dstSubnet) as (i1, a1, e1)] when dstSubnet != nil && e1 != nil && ret2 == e1 -> exit
+//@   entry row local:     [call getLocalSubnetInterface(o, dstSubnet) as (i1, a1, e1)] when dstSubnet != nil && e1 == nil && i1 != nil && a1 != nil && ret0 == i1 && ret1 == a1 && ret2 == nil -> exit
+//@   entry row given:     [call getLocalSubnetInterface(o, dstSubnet) as (i1, a1, e1) ; call ip.GetInterfaceIP(o.iface) as (a2, e2)]
+//@                           when dstSubnet != nil && e1 == nil && !(i1 != nil && a1 != nil) && o.iface != nil && ret0 == o.iface && ret1 == a2 && ret2 == e2 -> exit
+//@   entry row given0:    [call ip.GetInterfaceIP(o.iface) as (a2, e2)] when dstSubnet == nil && o.iface != nil && ret0 == o.iface && ret1 == a2 && ret2 == e2 -> exit
+//@   entry row default:   [call getLocalSubnetInterface(o, dstSubnet) as (i1, a1, e1) ; call ip.GetDefaultInterface() as (i3, a3, e3)]
+//@                           when dstSubnet != nil && e1 == nil && !(i1 != nil && a1 != nil) && o.iface == nil && ret0 == i3 && ret1 == a3 && ret2 == e3 -> exit
+//@   entry row default0:  [call ip.GetDefaultInterface() as (i3, a3, e3)] when dstSubnet == nil && o.iface == nil && ret0 == i3 && ret1 == a3 && ret2 == e3 -> exit
+
+// with --iface the attached-subnet lookup is restricted to that interface (and still returns that interface)
+//@ func (*packetScanCmdOpts).getLocalSubnetInterface
+//@   props C17
+//@   observe ip.GetLocalSubnetInterface, ip.GetLocalSubnetInterfaceIP
+//@   entry row any:   [call ip.GetLocalSubnetInterface(dstSubnet) as (i, a, e)] when o.iface == nil && ret0 == i && ret1 == a && ret2 == e -> exit
+//@   entry row given: [call ip.GetLocalSubnetInterfaceIP(o.iface, dstSubnet) as (a, e)] when o.iface != nil && ret0 == o.iface && ret1 == a && ret2 == e -> exit
